@@ -231,6 +231,12 @@ func (vc *VC) exec(rs *runState, ins ssa.Instruction) {
 		vc.note("map update abstracted")
 	case *ssa.Call:
 		vc.execCall(ins)
+		if vc.callHeaps == nil {
+			vc.callHeaps = map[*ssa.Call]*Heap{}
+		}
+		if vc.cur != nil && vc.cur.heap != nil {
+			vc.callHeaps[ins] = vc.cur.heap.clone()
+		}
 	case *ssa.Defer:
 		vc.note("defer (outside subset; deferred call ignored)")
 	case *ssa.RunDefers:
